@@ -4,6 +4,7 @@ import os, json
 from vf.core import *
 
 PROPOSED = os.path.join(VERIF, 'tools', 'reports', 'kf_codec.json')
+JOBS = int(os.environ.get('VF_JOBS') or 4)          # parallel cbmc processes (the machine is shared: at most 4)
 
 def kfs(pid):
     """committed known findings; with VF_KF_PROPOSED=1 also the entries proposed in tools/reports/kf_codec.json
@@ -12,7 +13,8 @@ def kfs(pid):
     if os.environ.get('VF_KF_PROPOSED') and os.path.exists(PROPOSED):
         have = set(e.get('define') for e in out)
         out += [e for e in json.load(open(PROPOSED)).get('findings', []) if e.get('property') == pid and e.get('define') not in have]
-    return out
+    skip = set(filter(None, os.environ.get('VF_KF_SKIP', '').split(',')))      # runs against a tree that carries a proposed repair (VF_REPO): drop that finding's define
+    return [e for e in out if e.get('define') not in skip]
 
 # ------------------------------------------------------------------ native replay
 ASAN = ('-O1', '-g', '-fsanitize=address,undefined', '-fno-sanitize=alignment,vptr', '-fno-access-control', '-I' + REPO + '/utests')
@@ -307,7 +309,7 @@ def us_decode(ntok, harness_loops=('main', 'run'), extra=(), maxcopy=None):
     us += ['_ZNK4FIX811FieldTraits12find_missingENS_10FieldTrait10TraitTypesE.0:29', 'in_tab.0:29', 'vf_ti_match.0:60', 'vf_copy.0:%d' % ((maxcopy or FLD) + 2), 'x_strlen.0:64',
            M_DECODE + '.0:3', M_DECODE + '.1:%d' % (ntok + 2), M_DECODE + '.2:%d' % (ntok + 2),
            SYMS['fw'] + '.0:%d' % FLD, SYMS['ext'] + '.0:%d' % (FLD + 1),
-           'TK_render.0:%d' % max(ntok + 3, 13), 'TK_render.1:%d' % max(ntok + 3, 13), 'st_extract_element.0:%d' % max(ntok + 3, 10), 'st_extract_element.1:%d' % max(ntok + 3, 10), 'st_extract_element.2:%d' % max(ntok + 3, 10),
+           'TK_render.0:%d' % max(ntok + 3, 13), 'TK_render.1:%d' % max(ntok + 3, 13), 'st_extract_element.0:%d' % max(ntok + 3, 10), 'st_extract_element.1:%d' % max(ntok + 3, 10), 'st_extract_element.2:%d' % max(ntok + 3, 10), 'st_extract_element.3:%d' % max(ntok + 3, 10),
            '_ZN4FIX89fast_atoiItEET_PKcc.0:7', '_ZN4FIX89fast_atoiIjEET_PKcc.0:9', '_ZN4FIX89fast_atoiIiEET_PKcc.0:9']
     us += ['%s.%d:29' % (M_FILL, i) for i in range(4)] + ['%s.%d:6' % (SYMS['dgroup'], i) for i in range(6)]
     return us + list(extra)
